@@ -28,6 +28,7 @@ type EPConfig struct {
 	MaxRetransMs   int      `json:"max_retrans_ms"`
 	CookieSecret   []byte   `json:"cookie_secret"`
 	RandSeed       uint64   `json:"rand_seed"`                  // 0: crypto/rand
+	CertVia        string   `json:"cert_via,omitempty"`         // "" Certificates list; "cb" Get* callbacks; "mixed" signing pair in the list, encryption pair by callback
 	TimeShiftYears int      `json:"time_shift_years,omitempty"` // the configuration's clock = the fixed clock + this many years
 }
 
